@@ -17,10 +17,13 @@ REPO = os.environ.get("VERIF_REPO", "/repo")
 def main():
     out = {"repo_head": subprocess.run(["git", "-C", REPO, "rev-parse", "HEAD"], capture_output=True,
                                        text=True).stdout.strip(), "files": {}}
+    extra = {}
+    if os.path.exists(os.path.join(VERIF, "extra_anchors.json")):   # files a model covers beyond the property's own anchors
+        extra = json.load(open(os.path.join(VERIF, "extra_anchors.json")))
     for line in open(os.path.join(VERIF, "properties.jsonl")):
         p = json.loads(line)
         d = {}
-        for f in p["anchors"]["files"]:
+        for f in list(p["anchors"]["files"]) + [x for x in extra.get(p["id"], []) if x not in p["anchors"]["files"]]:
             path = os.path.join(REPO, f)
             d[f] = hashlib.sha256(open(path, "rb").read()).hexdigest() if os.path.exists(path) else None
         out["files"][p["id"]] = d
